@@ -96,7 +96,7 @@ theorem check_turn (c : Expr) (body : Stmt)
         | (exfalso; hl_arith)
 
 
-def shapeVal (shape : List Nat) : MiniPy.Val := .ilist (shape.map Int.ofNat)
+def shapeTuple (shape : List Nat) : MiniPy.Val := .ilist (shape.map Int.ofNat)
 
 theorem all_zip_zipWith (its : List Item) (shape : List Nat) :
     (its.zip shape).all (fun b => validSl b.2 (itemSlice b.1)) = (List.zipWith validSl shape (its.map itemSlice)).all id := by
@@ -118,32 +118,32 @@ theorem zip_items (its : List Item) (shape : List Nat) :
     | cons n ns => simp only [List.map_cons, List.zip_cons_cons, ih]; rfl
 
 theorem src_check_hyperslab_eq (its : List Item) (shape : List Nat) :
-    runItem [("slice_", .tuple its), ("shape", shapeVal shape)] Gen.src_check_hyperslab "shape"
+    runItem [("slice_", .tuple its), ("shape", shapeTuple shape)] Gen.src_check_hyperslab "shape"
       = if its.length ≤ shape.length ∧ (List.zipWith validSl shape (its.map itemSlice)).all id = true then
-          .ok (shapeVal shape)
+          .ok (shapeTuple shape)
         else .error ceRaised := by
   have hshape : ∃ c body, Gen.src_check_hyperslab = .ite c (.raise "ConstraintExpressionError")
       (.forZip "s" "n" (.var "slice_") (.var "shape") body) := ⟨_, _, rfl⟩
   obtain ⟨c, body, hb⟩ := hshape
-  have hc : eval [("slice_", .tuple its), ("shape", shapeVal shape)] c
+  have hc : eval [("slice_", .tuple its), ("shape", shapeTuple shape)] c
       = .ok (.bool (decide ((its.length : Int) > shape.length))) := by
     have hb' := hb
     unfold Gen.src_check_hyperslab at hb'
     injection hb' with hc _ _
     subst hc
-    simp (decide := true) only [eval, bind_ok', lookup_cons_eq, lookup_cons_ne, shapeVal, asInt_int, List.length_map]
+    simp (decide := true) only [eval, bind_ok', lookup_cons_eq, lookup_cons_ne, shapeTuple, asInt_int, List.length_map]
   have sim := forZip_sim (σ := Unit) "s" "n" body
-    (fun _ env => lookup env "shape" = .ok (shapeVal shape)) (fun b => (b.1.toVal, MiniPy.Val.int (b.2 : Nat)))
+    (fun _ env => lookup env "shape" = .ok (shapeTuple shape)) (fun b => (b.1.toVal, MiniPy.Val.int (b.2 : Nat)))
     axisStep (its.zip shape)
     (fun s b env _ h => by
       obtain ⟨it, n⟩ := b
       have t := check_turn c body hb it n _ env h
       cases hq : axisStep s (it, n) <;> simp only [hq] at t ⊢ <;> exact t) ()
-    [("slice_", .tuple its), ("shape", shapeVal shape)]
+    [("slice_", .tuple its), ("shape", shapeTuple shape)]
     (by simp (decide := true) only [lookup_cons_eq, lookup_cons_ne])
   rw [axis_fold, all_zip_zipWith] at sim
   rw [hb]
-  have hit : iterItems (shapeVal shape) = .ok ((shape.map Int.ofNat).map MiniPy.Val.int) := rfl
+  have hit : iterItems (shapeTuple shape) = .ok ((shape.map Int.ofNat).map MiniPy.Val.int) := rfl
   simp (decide := true) only [runItem, exec, hc, bind_ok', truthy_bool', eval, lookup_cons_eq, lookup_cons_ne, hit,
     iterItems_tuple, zip_items]
   by_cases hl : its.length ≤ shape.length
